@@ -290,6 +290,16 @@ fn run_case(sub: &Sub, input: &Input, ctx: &mut Ctx) -> CaseResult {
         ctx.evals += 1;
     }
     match guard(|| (sub.f)(input, ctx)) {
+        Ok(Err(v)) if v.msg.contains("MQV-INTERNAL") => {
+            // the harness caught itself in an inconsistency (a generator slip, a model that cannot be built):
+            // broken machinery, exit 2 - never a violation of the property
+            let mut g = INTERNAL_ERROR.lock().unwrap();
+            if g.is_none() {
+                *g = Some(format!("{} (sub {}, input {})", v.msg, sub.name, input.to_json().render()));
+            }
+            STOP.store(true, Ordering::SeqCst);
+            Ok(())
+        }
         Ok(r) => r,
         Err(p) => {
             if p.internal() {
